@@ -49,9 +49,25 @@ def obligations(tier, seed):
     # long pushes: every push form and the longest listing lines (a 520-byte push is a 1046-character line)
     for n in (75, 76, 255, 256, 508, 509, 520): obs.append(dict(name='plain/push-%d-bytes' % n, kind='plain', script='0x' + 'ab' * n + ' OP_SIZE OP_NIP', args=[]))
     for f in FIXTURES: obs.append(dict(name='fixture/' + f, kind='fixture', fx=f, timeout_s=900, cost=10))
+    # flag modifications change what is executed (P2SH off: no redeem-script section) and so what the listing must show (seed C12-4)
+    for syn in ('p2sh', 'legacy'):
+        obs.append(dict(name='synthetic/%s' % syn, kind='fixture', synth=syn, timeout_s=900, cost=5))
+        obs.append(dict(name='synthetic/%s/-f-P2SH' % syn, kind='fixture', synth=syn, opts=['-f-P2SH'], timeout_s=900, cost=5))
+    obs.append(dict(name='fixture/p2pkh/-f-P2SH,-WITNESS', kind='fixture', fx='p2pkh', opts=['-f-P2SH,-WITNESS'], timeout_s=900, cost=10))
     for m in range(0, 4): obs.append(dict(name='tce-lines/m%d' % m, kind='tcelines', m=m))
     for m in range(0, 4): obs.append(dict(name='tapscript-session/m%d' % m, kind='tapsession', m=m, timeout_s=900, cost=5))
     return obs
+
+def synth_pair(which):
+    """hand-made funding / spending pair (no signatures needed)"""
+    import hashlib, C03
+    h160 = lambda b: list(hashlib.new('ripemd160', hashlib.sha256(bytes(b)).digest()).digest())
+    if which == 'p2sh': redeem = [0x52, 0x93]; spk = [0xa9, 0x14] + h160(redeem) + [0x87]; ss = [0x51, len(redeem)] + redeem          # OP_1 <OP_2 OP_ADD>
+    elif which == 'legacy': spk = [0x93, 0x53, 0x87]; ss = [0x51, 0x52]                                                                    # 1 2 | ADD 3 EQUAL
+    f_full, f_str = C03.ser_tx([2, 0, 0, 0], [([0x11] * 32, [0, 0, 0, 0], [], [0xff] * 4, None)], [((1000).to_bytes(8, 'little'), spk)], [0] * 4)
+    txid = list(hashlib.sha256(hashlib.sha256(bytes(f_str)).digest()).digest())
+    s_full, _ = C03.ser_tx([2, 0, 0, 0], [(txid, [0, 0, 0, 0], ss, [0xff] * 4, None)], [((900).to_bytes(8, 'little'), [0x51])], [0] * 4)
+    return bytes(s_full).hex(), bytes(f_full).hex()
 
 def read_fixture(fx):
     d = os.path.join(build.REPO, 'doc', 'txs')
@@ -87,8 +103,8 @@ def session_argv(ob, V=None):
             b = C03.build(dict(t='p2tr-script-ctrl', idx=0, csize=33 + 32 * ob['m']), RV())
             txid = hashlib.sha256(hashlib.sha256(bytes(b['txin'])).digest()).digest()
         return [list(b'btcdeb'), list(('--tx=' + bytes(b['tx']).hex()).encode()), list(('--txin=' + bytes(b['txin']).hex()).encode())], assume, syms
-    tx, txin = read_fixture(ob['fx'])
-    return [list(b'btcdeb'), list(('--tx=' + tx).encode()), list(('--txin=' + txin).encode())], assume, syms
+    tx, txin = synth_pair(ob['synth']) if ob.get('synth') else read_fixture(ob['fx'])
+    return [list(b'btcdeb')] + [list(o.encode()) for o in ob.get('opts', [])] + [list(('--tx=' + tx).encode()), list(('--txin=' + txin).encode())], assume, syms
 
 OPNAME = {v: k for k, v in R.OP.items() if k not in ('OP_0', 'OP_1NEGATE', 'OP_1', 'OP_16')}
 def opname(o):
